@@ -46,28 +46,32 @@ def _eligible(chk, ctx) -> None:
         iv = loop.target.id if loop is not None and isinstance(loop.target, ast.Name) else 'i'
         who = T.norm(a.args[0]) if a.args else None
         want_live = T.spec(f'self.statuses[{iv}]', boolean=True)
-        lvl = [c for c in conj if c[0] in ('le', 'lt') and T.mentions(c, lambda s: s == ('name', 'pending_contributions'))]
-        ok_lvl = any(c == T.spec(f'pending_contributions[{iv}] >= contribution', boolean=True) for c in lvl)
+        from .c01 import pots_roles
+        _, roles = pots_roles(ctx)
+        P = roles.get('pending')
+        lvl = [c for c in conj if c[0] in ('le', 'lt') and T.mentions(c, lambda s: s == ('name', P))]
+        lvl_loops = [n for n in walk_no_nested(fi.node) if isinstance(n, ast.For) and isinstance(n.target, ast.Name)
+                     and ctx.m.eq(T.norm(n.iter), f'sorted(set({roles.get("contrib")}))') and any(x is a for x in ast.walk(n))]
+        level_name = lvl_loops[0].target.id if lvl_loops else None
+        ok_lvl = level_name is not None and any(c == T.spec(f'{P}[{iv}] >= {level_name}', boolean=True) for c in lvl)
         chk.ob('C02.eligible', 'State.pots:live', want_live in conj and who == ('name', iv), ctx.loc(fi, a),
                'a player is eligible for a pot only if he is still in the hand', got=[T.show(c) for c in conj], want=T.show(want_live))
         chk.ob('C02.eligible', 'State.pots:level', ok_lvl, ctx.loc(fi, a),
                'a player is eligible for a pot only if he paid at least up to its level (>=, not >)',
-               got=[T.show(c) for c in lvl], want=f'pending_contributions[{iv}] >= contribution')
+               got=[T.show(c) for c in lvl], want='pending[i] >= level')
+        chk.ob('C02.eligible', 'State.pots:levels', bool(lvl_loops), ctx.loc(fi, lvl_loops[0]) if lvl_loops else fi.loc,
+               'pots are layered over the distinct contribution levels in ascending order', want='for level in sorted(set(contributions))')
     # the eligibility level is adjusted exactly like the contribution (dead antes are nobody's level)
-    adj = {'contributions': [], 'pending_contributions': []}
+    from .c01 import pots_roles
+    _, roles2 = pots_roles(ctx)
+    adj = {roles2.get('contrib'): [], roles2.get('pending'): []}
     for n in walk_no_nested(fi.node):
         if isinstance(n, ast.AugAssign) and isinstance(n.target, ast.Subscript) and isinstance(n.target.value, ast.Name) and n.target.value.id in adj:
             adj[n.target.value.id].append((type(n.op).__name__, T.key(T.norm(n.target.slice)), T.key(T.norm(n.value)),
                                            tuple(sorted(T.key(T.cond(t)) for t in _enclosing_tests(fi.node, n)))))
-    chk.ob('C02.eligible', 'State.pots:level_adjusted', sorted(adj['contributions']) == sorted(adj['pending_contributions']), fi.loc,
+    chk.ob('C02.eligible', 'State.pots:level_adjusted', sorted(adj[roles2.get('contrib')]) == sorted(adj[roles2.get('pending')]), fi.loc,
            "a player's eligibility level is reduced by whatever is taken out of his contribution (an untrimmed ante is dead money, it buys no side-pot level)",
            got={k: [(o, v) for o, _, v, _ in x] for k, x in adj.items()})
-    # level list is sorted ascending and de-duplicated
-    loops = [n for n in walk_no_nested(fi.node) if isinstance(n, ast.For) and isinstance(n.target, ast.Name) and n.target.id == 'contribution']
-    ok = len(loops) == 1 and T.norm(loops[0].iter) == T.spec('sorted(set(contributions))')
-    chk.ob('C02.eligible', 'State.pots:levels', ok, ctx.loc(fi, loops[0]) if loops else fi.loc,
-           'pots are layered over the distinct contribution levels in ascending order',
-           got=stmt_text(loops[0].iter) if loops else None, want='sorted(set(contributions))')
     chk.floor('C02.eligible', 4)
 
 
